@@ -240,6 +240,21 @@ fn c02_judge(case: &Case, run: &Run, an: &Analysis, stats: &mut Stats) -> CheckR
   if let Some(t) = an.findings.iter().find(|f| ["I1-double-exec", "I2-unjustified-exec", "I2-verdict", "I3-order"].contains(&f.tag) && !skipped(f.session)) {
     return Err(Failure::new(format!("[{}] {}", t.tag, t.msg)));
   }
+  // I1 again, straight from the task-side log: in a session of top-down builds no task starts executing twice (a build
+  // cut by a panic ends the claim for that session: the aborted tasks may be executed again).
+  for (si, sess) in run.sessions.iter().enumerate() {
+    if skipped(si) || sess.builds.iter().any(|b| matches!(b.kind, BuildKind::BottomUp(_))) { continue; }
+    let mut seen: BTreeSet<TaskId> = BTreeSet::new();
+    'builds: for b in &sess.builds {
+      for l in &run.log[b.log.clone()] {
+        match l {
+          crate::interp::L::Aborted => break 'builds,
+          crate::interp::L::TEnter(t) => { if !seen.insert(*t) { return Err(Failure::new(format!("[I1-double-exec] session {}: T{} started executing a second time in this session (task-side log; build {:?})", si, t, b.kind))); } }
+          _ => {}
+        }
+      }
+    }
+  }
   // I4: probes execute nothing.
   for b in &an.builds {
     if skipped(b.session) { continue; }
